@@ -119,6 +119,20 @@ CHECKS = {
                 "asserted on trees without equal-but-distinct subtrees (memoization shares results between them).",
         "technique": SOLVER_TECH,
     },
+    "C09": {
+        "level": "model_checking",
+        "text": "Bounded model checking: the five analysis flags are small-domain symbolic integers; per skeleton tree (every "
+                "node kind at depth 1, (parent, slot, child) with composite and other children at depth 2, every constant in "
+                "every slot) the explorer enumerates all 72 settings through the solver, proves coverage, and compares "
+                "DependencyMapper and CachedDependencyMapper with an independent outermost-composite scan. get_num_nodes, "
+                "FlopCounter and CSEAwareFlopCounter are compared with independent counts. Solver clause: with composite "
+                "kinds off, evaluating the tree on z3 proxies in an environment binding only the reported variables raises "
+                "UnknownVariableError on no explored path.",
+        "design_ref": "DESIGN.md §4 C09",
+        "note": "Trusted: the harness's scan/count specifications and its notion of children (expression-valued dataclass "
+                "fields). Remainder is not counted as a flop (the property lists + * / **).",
+        "technique": "bounded model checking: flag settings enumerated by z3 with a coverage query; symbolic execution of the evaluator on proxies for the 'needs no other value' clause",
+    },
     "C10": {
         "level": "model_checking",
         "text": "Bounded symbolic model checking over the reals: for every tree of the differentiable fragment (depth <= 2 "
